@@ -1,4 +1,4 @@
 ---- MODULE MCGenGraph ----
 EXTENDS GenGraph
-MCPos == {"binop_rhs", "cmp_rhs", "stmt", "assign"}
+MCPos == {"ternary", "switchsel", "forupdate", "whilecond"}
 ====
